@@ -2,6 +2,7 @@ package fakemysql
 
 import (
 	"bufio"
+	"crypto/tls"
 	"encoding/binary"
 	"errors"
 	"fmt"
@@ -58,21 +59,35 @@ type Server struct {
 	DB *fakepg.DB
 	// Caps are the capabilities announced in the handshake.
 	Caps uint32
+	// TLS, when set before clients connect, makes the server announce CLIENT_SSL and perform the in-protocol upgrade
+	// (SSL request packet, TLS handshake, then the full handshake response over TLS).
+	TLS *tls.Config
 	// OnResult may tamper with results before they are sent.
 	OnResult func(sql string, res *fakepg.Result)
 
-	ln      net.Listener
-	mu      sync.Mutex
-	log     []Received
-	sent    []Sent
-	rawIn   map[int]*[]byte
-	rawOut  map[int]*[]byte
-	negCaps map[int]uint32
-	conns   int
-	scripts map[string]Script
-	unsupp  []string
-	closed  bool
+	ln          net.Listener
+	mu          sync.Mutex
+	log         []Received
+	sent        []Sent
+	rawIn       map[int]*[]byte
+	rawOut      map[int]*[]byte
+	negCaps     map[int]uint32
+	conns       int
+	scripts     map[string]Script
+	unsupp      []string
+	closed      bool
+	tlsUpgrades int
 }
+
+// TLSUpgrades returns the number of connections that switched to TLS.
+func (s *Server) TLSUpgrades() int { s.mu.Lock(); defer s.mu.Unlock(); return s.tlsUpgrades }
+
+type bufferedConn struct {
+	net.Conn
+	r *bufio.Reader
+}
+
+func (b *bufferedConn) Read(p []byte) (int, error) { return b.r.Read(p) }
 
 // DefaultCaps is what the server announces unless told otherwise.
 const DefaultCaps = CapLongPassword | CapFoundRows | CapLongFlag | CapConnectWithDB | CapLocalFiles | CapProtocol41 | CapTransactions | CapSecureConn | CapMultiResults | CapPluginAuth | CapConnectAttrs | CapPluginAuthLenc | CapDeprecateEOF
@@ -510,10 +525,14 @@ func (s *Server) serve(id int, nc net.Conn) {
 	hs = append(hs, byte(id), byte(id>>8), byte(id>>16), byte(id>>24))
 	hs = append(hs, "abcdefgh"...)
 	hs = append(hs, 0)
-	hs = append(hs, byte(s.Caps), byte(s.Caps>>8))
+	announced := s.Caps
+	if s.TLS != nil {
+		announced |= CapSSL
+	}
+	hs = append(hs, byte(announced), byte(announced>>8))
 	hs = append(hs, 33)
 	hs = append(hs, statusAutocommit, 0)
-	hs = append(hs, byte(s.Caps>>16), byte(s.Caps>>24))
+	hs = append(hs, byte(announced>>16), byte(announced>>24))
 	hs = append(hs, 21)
 	hs = append(hs, make([]byte, 10)...)
 	hs = append(hs, "ijklmnopqrst\x00"...)
@@ -528,6 +547,22 @@ func (s *Server) serve(id int, nc net.Conn) {
 	}
 	if len(f.Payload) < 32 {
 		return
+	}
+	if s.TLS != nil && len(f.Payload) == 32 && binary.LittleEndian.Uint32(f.Payload)&CapSSL != 0 {
+		// SSL request: switch to TLS (bytes the buffered reader already holds belong to the TLS stream)
+		s.record(Received{Conn: id, Seq: f.Seq, EndSeq: f.EndSeq, Packets: f.Packets, Name: "SSLRequest", Payload: f.Payload})
+		tc := tls.Server(&bufferedConn{Conn: nc, r: c.r}, s.TLS)
+		if err := tc.Handshake(); err != nil {
+			return
+		}
+		s.mu.Lock()
+		s.tlsUpgrades++
+		s.mu.Unlock()
+		c.c = tc
+		c.r = bufio.NewReaderSize(&teeReader{r: tc, s: s, id: id}, 64<<10)
+		if f, err = ReadFrame(c.r); err != nil || len(f.Payload) < 32 {
+			return
+		}
 	}
 	clientCaps := binary.LittleEndian.Uint32(f.Payload)
 	c.caps = clientCaps & s.Caps
